@@ -124,6 +124,15 @@ def step (σ : St) (op obs : List String) : St × List Msg :=
       ++ (if m && !legacy then [.tag "mutes:sibling-found-by-scan"] else [])
       ++ (if σ.st.any (fun rs => rs.rule.tgt ls && rs.rule.src ls) then [.tag "mutes:two-sided-target"] else [])
     (σ, expectEq "mutes" (if m then "1" else "0") v ++ pf ++ t ++ tags)
+  | ["reload", now], [dmp] =>
+    -- a configuration reload: a new inhibitor loads what the provider holds (its cache GC ticker restarts); by
+    -- verdict_order_independent the order in which it sees the alerts does not matter
+    let now := toInt! now
+    let (σ, tags) := advance σ now []
+    let cur := σ.store.map Prod.snd
+    ({ σ with st := cur.foldl process (init σ.rules), leg := cur.foldl process (init σ.rules),
+              iNext := now + σ.igc, implDump := parseAlerts dmp },
+      expectEq "reload.dump" (dumpStore σ.store) dmp ++ tags ++ [.tag "reload"])
   | ["fresh", now, ls], [v, live] =>
     let now := toInt! now
     let (σ, tags) := advance σ now []
